@@ -21,6 +21,14 @@ X = z3.String("x!ghost_variable")                              # the pointwise g
 in_names = z3.Function("in_names", z3.StringSort(), z3.BoolSort())   # membership in the `marker_names` of an only() call
 inside = z3.Function("inside", MK, z3.BoolSort())              # every variable m mentions is in `marker_names`
 
+# ---- documents (C07): rendered text abstracted to its PEP 508 structure
+DOC = z3.DeclareSort("Doc")
+doc_of = z3.Function("doc_of", MK, DOC)               # str(m)
+paren = z3.Function("paren", DOC, DOC)                # "(" + d + ")"
+dkind = z3.Function("doc_kind", DOC, z3.IntSort())    # top-level shape of the text
+dsem = z3.Function("doc_sem", DOC, z3.BoolSort())     # truth value a PEP 508 parser assigns to the text at the ghost environment
+K_ATOM, K_AND, K_OR, K_PAREN, K_EMPTYTOK, K_ANYTOK = range(6)
+
 CLASSES = ["AnyMarker", "EmptyMarker", "MarkerExpression", "EqualityMarkerUnion", "InequalityMultiMarker", "MultiMarker", "MarkerUnion"]
 CID = {c: i for i, c in enumerate(CLASSES)}
 SINGLE = ["MarkerExpression", "EqualityMarkerUnion", "InequalityMultiMarker"]
@@ -62,11 +70,34 @@ class _Method:
         self.fn = fn
 
 
+class DocShape(Shape):
+    sort = DOC
+
+    def fresh(self, name):
+        return z3.Const(fresh_name(name), DOC)
+
+    def enc(self, v):
+        if z3.is_expr(v) and v.sort() == DOC:
+            return v
+        raise OutsideSubset(f"not a document: {v!r}")
+
+    def dec(self, t):
+        return t
+
+
+class Joined:
+    """' and '.join(docs) / ' or '.join(docs)"""
+
+    def __init__(self, op, docs):
+        self.op, self.docs = op, docs
+
+
 class MarkerTheory:
     def __init__(self, index):
         self.index = index
         self.shape = MarkerShape(self)
         self.lshape = ListS(self.shape)
+        self.dshape = DocShape()
         self.method_contracts = {}     # (method name) -> callable(ex, self_obj, args) used at call sites
         self.binop_law = None
         self.construct_law = {}
@@ -128,6 +159,14 @@ class MarkerTheory:
         ax.append(z3.ForAll([m], z3.Implies(is_cls(m, "MultiMarker", "MarkerUnion"),
                                             inside(m) == z3.ForAll([i2], z3.Implies(z3.And(0 <= i2, i2 < nkids(m)), inside(z3.Select(kids(m), i2)))))))
         ax.append(z3.ForAll([x, y], z3.Implies(eqm(x, y), inside(x) == inside(y))))
+        # documents: the contract of str() on children (assumed recursively), and of parenthesising
+        d = z3.Const("d!ax", DOC)
+        kind_by_cls = {"AnyMarker": K_ANYTOK, "EmptyMarker": K_EMPTYTOK, "MarkerExpression": K_ATOM, "EqualityMarkerUnion": K_OR, "InequalityMultiMarker": K_AND,
+                       "MultiMarker": K_AND, "MarkerUnion": K_OR}
+        for c, k in kind_by_cls.items():
+            ax.append(z3.ForAll([m], z3.Implies(cls_of(m) == CID[c], dkind(doc_of(m)) == k)))
+        ax.append(z3.ForAll([m], dsem(doc_of(m)) == ev(m)))
+        ax.append(z3.ForAll([d], z3.And(dkind(paren(d)) == K_PAREN, dsem(paren(d)) == dsem(d))))
         self._axioms = ax
         return ax if with_names else [a for a in ax if not getattr(a, "_names", False)]
 
@@ -190,6 +229,26 @@ class MarkerTheory:
     def call_other(self, ex, f, args, kw):
         if isinstance(f, _Method):
             return f.fn(*args)
+        return NotImplemented
+
+    # ---- text
+    def to_str(self, ex, x):
+        if isinstance(x, AbsObj):
+            return doc_of(x.term)
+        if z3.is_expr(x) and x.sort() == DOC:
+            return x
+        return None
+
+    def str_concat(self, ex, parts):
+        if len(parts) == 3 and parts[0] == "(" and parts[2] == ")" and z3.is_expr(parts[1]) and parts[1].sort() == DOC:
+            return paren(parts[1])
+        if len(parts) == 1 and z3.is_expr(parts[0]) and parts[0].sort() == DOC:
+            return parts[0]
+        return None
+
+    def method_builtin(self, ex, recv, name, args, kw):
+        if name == "join" and recv in (" and ", " or ") and args and isinstance(args[0], AList) and args[0].shape is self.dshape:
+            return Joined("and" if recv == " and " else "or", args[0])
         return NotImplemented
 
     def binop(self, ex, name, a, b):
